@@ -90,6 +90,7 @@ def run(tier: str, runs_override: Optional[int] = None) -> int:
             "faults_fired": {k: v for k, v in sorted(cnt.items()) if k.startswith("fault_")},
             "env_events": {k: v for k, v in sorted(cnt.items()) if k.startswith("env:")},
             "lp_calls_by_site_status": {k[3:]: v for k, v in sorted(cnt.items()) if k.startswith("lp:")},
+            "natural_solver_giveups_by_site_status": {k[len("natural_solver_giveup:"):]: v for k, v in sorted(cnt.items()) if k.startswith("natural_solver_giveup:")},
             "clock_reads": cnt.get("clock_reads", 0),
             "clock_backward_jumps": cnt.get("clock_backward_jumps", 0),
             "log_records_formatted_under_DEBUG": cnt.get("log_records_formatted", 0),
